@@ -296,7 +296,7 @@ Example type_values_invert : forall t, type_of_value (type_value t) = Some t.
 Proof. exact type_of_value_value. Qed.
 
 (* a frame without one of the six columns: KeyError; with an extra column: TypeError; unknown type value: ValueError *)
-Example table_to_symbols_errors :
+Example table_to_symbols_error_examples :
   let ix := mkIndex KRange PInt64 [CInt 0] in
   let base := [mkCol "name" PStrDt [CStr "X"]; mkCol "type" PInt64 [CInt 2]; mkCol "lags" PInt64 [CInt 0];
                mkCol "leads" PInt64 [CInt 0]; mkCol "equation" PObject [CNone]; mkCol "code" PObject [CNone]] in
@@ -305,3 +305,25 @@ Example table_to_symbols_errors :
   table_to_symbols (mkTable ix (mkCol "type" PInt64 [CInt 10] :: base)) = TErr ValueError /\
   table_to_symbols (mkTable ix base) = TOk [mkSymbol (Some "X") TExogenous (Some (IInt 0)) (Some (IInt 0)) None None].
 Proof. vm_compute. repeat split; reflexivity. Qed.
+
+(* ------------------------------------------------------------------ the class default dtype on an int / bool model *)
+Definition intbool_model : fmodel :=
+  mkModel ex_span ["I"; "B"]
+          [("I", mkSeries NInt [CInt 1; CInt (-2); CInt 9007199254740992]); ("B", ex_B)]
+          (mkSeries NStr [CStr "-"; CStr "-"; CStr "-"]) (mkSeries NInt [CInt (-1); CInt (-1); CInt (-1)]).
+Example default_float_hyps :
+  forall k s, In k (fnames intbool_model) -> assoc_s k (fvars intbool_model) = Some s ->
+    sdt s <> NObj /\ forallb float_exact (scells s) = true.
+Proof.
+  intros k s H Hs. cbn in H. destruct H as [<-|[<-|[]]]; cbn in Hs; inversion Hs; subst; (split; [discriminate|reflexivity]).
+Qed.
+Example default_float_instance :
+  match model_to_table false false false intbool_model with
+  | TOk t => match from_table (mkClass ["I"; "B"] NFloat (CFlt (FInt 0)) true) t with
+             | TOk m' => fvars m' = [("I", mkSeries NFloat [CFlt (FInt 1); CFlt (FInt (-2)); CFlt (FInt 9007199254740992)]);
+                                     ("B", mkSeries NFloat [CFlt (FInt 1); CFlt (FInt 0); CFlt (FInt 1)])]
+             | _ => False
+             end
+  | _ => False
+  end.
+Proof. vm_compute. reflexivity. Qed.
